@@ -35,7 +35,7 @@ func init() {
 	// ------------------------------------------------------------------ C01
 	register(&Prop{
 		ID: "C01", Level: "exploration", QuickS: 20, ThoroughS: 300,
-		Rule:       "seeded authentication attempts against ClearTextPassword(validator) and a custom failing strategy: validator outcome drawn per case (accept / reject / fail with either verdict flag), the client sends in place of the password message a correct, wrong or empty password, a password message without NUL / with surplus bytes / with declared length 0-3, > limit or 2^32-1, another message type, garbage, or nothing; then a generated tail of queries, extended messages, Terminate and raw bytes, pipelined in the same segment or sent after the server's reply; segmentation and a failing write are drawn per case; a share of cases authenticates inside an upgraded (TLS) connection, with and without an unverified client certificate, judged against the plaintext equivalent; in a quarter of the cases an earlier connection first logs in successfully with related credentials (the same triple, whose password the validator rejects from the second time on, or a triple that reads the same when its parts are joined with a separator), a failing write is permanent or transient (exactly one write fails); non-trivial = the connection was not accepted and the client sent at least one message after its credentials; distinct = distinct case content hashes",
+		Rule:       "seeded authentication attempts against ClearTextPassword(validator) and a custom failing strategy: validator outcome drawn per case (accept / reject / fail with either verdict flag), the client sends in place of the password message a correct, wrong or empty password, a password message without NUL / with surplus bytes / with declared length 0-3, > limit or 2^32-1, another message type, garbage, or nothing; then a generated tail of queries, extended messages, Terminate and raw bytes, pipelined in the same segment or sent after the server's reply; segmentation and a failing write are drawn per case; a share of cases authenticates inside an upgraded (TLS) connection, with and without an unverified client certificate, judged against the plaintext equivalent; in a quarter of the cases an earlier connection first logs in successfully with related credentials (the same triple, whose password the validator rejects from the second time on, or a triple that reads the same when its parts are joined with a separator), some accounts have an empty password, some servers were given an accept-all strategy before the configured one (last option wins), a failing write is permanent or transient (exactly one write fails); non-trivial = the connection was not accepted and the client sent at least one message after its credentials; distinct = distinct case content hashes",
 		Components: e1Components, Assumptions: commonAssumptions,
 		Gen: func(r *Rand, tier string) *Case {
 			if r.Chance(1, 15) {
@@ -107,6 +107,15 @@ func init() {
 				cred = pgwire.FMsg{K: "raw", Data: nil} // nothing: EOF
 			case 13:
 				cred = pgwire.FMsg{K: "p", S1: pw, Cut: intp(r.Range(1, 5))}
+			}
+			if r.Chance(1, 4) {
+				// the account has no password: the empty password is right - when it
+				// arrives in a well-formed password message
+				c.Server.Validator = append(c.Server.Validator, AuthEntry{DB: db, User: user, PW: "", Out: "accept"})
+			}
+			if r.Chance(1, 6) {
+				// an earlier strategy option that the configured one replaced
+				c.Server.AuthFirst = "accept-all"
 			}
 			tail := genTail(r, c)
 			steps := []Step{{Msgs: []pgwire.FMsg{su}}}
@@ -222,6 +231,14 @@ func init() {
 				if msgs := cs.cc.FlatMsgs(); okSeen && len(msgs) > 1 {
 					cm := &msgs[1]
 					wellFormed := cm.K == "p" && cm.DeclLen == nil && cm.Cut == nil && !cm.NoNul && cm.Pad == 0
+					if !wellFormed && cm.K == "p" && (cm.Cut != nil || cm.DeclLen != nil) && len(msgs) > 2 && accepted {
+						// a truncated or mis-sized 'p' message followed by further bytes is,
+						// as a byte stream, a password message whose body continues into
+						// those bytes: if the validator accepted the password they spell
+						// (e.g. the empty one of a password-less account), the strategy did
+						// accept these credentials
+						wellFormed = true
+					}
 					if !wellFormed {
 						add("malformed-credentials-accepted", fmt.Sprintf("AuthenticationOk was sent although the client did not send a well-formed password message (it sent kind %q, %d body bytes)", clientKind(cm), cm.DeclaredBody()))
 						accepted = false
